@@ -23,7 +23,7 @@ theorem BrkParams.congr {inpW : Bytes} {sd : StateDef} {δ : Nat} {ms mw mw0 ms'
   ⟨by rw [h1]; exact h.np, by rw [h1]; exact h.skip, by rw [h2]; exact h.c0, by rw [h3]; exact h.x0, by rw [h4]; exact h.r0, h.q0⟩
 
 section
-variable {env : Env κ} {inpS inpW : Bytes} {δ : Nat} {K : Nat → κ → κ → Prop}
+variable {env : Env κ} {inpS inpW : Bytes} {δ : Nat} {K : Nat → κ → κ → Prop} {Loc : κ → Nat → Nat → TextType → Prop}
 
 /-- a common break as a step outcome -/
 theorem lock_of_break_both (F : Frame inpS inpW δ) (hcl : Closed inpS inpW δ) {fs : FlagMap} {st : StateId} {sd : StateDef}
@@ -31,15 +31,27 @@ theorem lock_of_break_both (F : Frame inpS inpW δ) (hcl : Closed inpS inpW δ) 
     (h : MRel δ d 0 ab sm ms mw) (hP : ab.P = true)
     (hfl : ms.c.isLast = false → (fs st).2.le ab.boundary = true ∧ (ab.Sn = true → ab.St = true))
     (hsm : sm = .none ∨ (sm = .inSeq ∧ hasSeq sd = true))
-    (hdebt : 0 < d → hasEoc sd = true) (hK : K d ms.x.sink mw.x.sink) :
-    LockOut env.tbl fs inpW δ K true (breakOnEndOfInput inpS ms) (breakOnEndOfInput inpW mw) := by
+    (hdebt : 0 < d → hasEoc sd = true) (hK : K d ms.x.sink mw.x.sink) (hd0 : d = 0)
+    (hloc : 0 < d → Loc ms.x.sink ms.x.prevConsumed (lexStart ms.r) ms.c.lastTextType) :
+    LockOut env.tbl fs inpW δ K Loc true (breakOnEndOfInput inpS ms) (breakOnEndOfInput inpW mw) := by
   have hsm' : sm ≠ .stale := by
     rcases hsm with h | ⟨h, _⟩ <;> rw [h] <;> intro hh <;> cases hh
   rcases break_both F hcl h hP (fun hl => (hfl hl).2) hsm' hK with hp | ⟨c, c', h1, h2, h3, h4, h5, h6, h7, h8, h9⟩
   · exact Or.inl hp
   · right
     rw [h1, h2]
-    refine ⟨rfl, d, h3, h4, by rw [h5, h6]; exact h.sim, by rw [h5, h6]; exact h.pc, fun hl => ?_⟩
+    have hil := breakOnEndOfInput_isLast inpS ms
+    have hlocOut : 0 < d → Loc (breakOnEndOfInput inpS ms).1.x.sink (breakOnEndOfInput inpS ms).1.x.prevConsumed c
+        (breakOnEndOfInput inpS ms).1.c.lastTextType := by
+      intro hd
+      cases hlast : ms.c.isLast with
+      | true => omega
+      | false =>
+        obtain ⟨bf1, _, bf3⟩ := break_facts inpS ms hlast h1
+        rw [h5, bf1, bf3, consumed_lexStart h hd]
+        exact hloc hd
+    refine ⟨rfl, d, h3, h4, by rw [h5, h6]; exact h.sim, by rw [h5, h6]; exact h.pc, fun hl => ?_,
+      hd0, hlocOut, fun hl => (break_facts inpS ms (by rw [← hil]; exact hl) h1).2.1⟩
     have hl' : ms.c.isLast = false := by
       have := breakOnEndOfInput_isLast inpS ms
       rw [← this]; exact hl
@@ -63,7 +75,7 @@ theorem armOk_seq {tbl : Table} {fs : FlagMap} {st : StateId} {ab : Ab} {arm : A
   exact h
 
 /-- **Sequence arms**, the two runs reading the same consumed byte. -/
-theorem runSeqArms_lock (F : Frame inpS inpW δ) (hops : OpsSim env.ops inpS inpW δ K) {fs : FlagMap} {st : StateId}
+theorem runSeqArms_lock (F : Frame inpS inpW δ) (hops : OpsSim env.ops inpS inpW δ K Loc) {fs : FlagMap} {st : StateId}
     {sd : StateDef} (ch : Option UInt8) (eoi : Bool) :
     ∀ (arms : List Arm), (∀ a ∈ arms, a ∈ sd.arms) → ∀ {sm : SeqMode} {ms mw mw0 : M κ} {npw0 : Nat},
     StepCtx env.tbl fs st sd ms.c → MRel δ 0 0 (fs st).2.inStep sm ms mw → K 0 ms.x.sink mw.x.sink →
@@ -74,8 +86,8 @@ theorem runSeqArms_lock (F : Frame inpS inpW δ) (hops : OpsSim env.ops inpS inp
     match runSeqArms env inpS ch arms ms with
     | .inr ms2 => ∃ mw2, runSeqArms env inpW ch arms mw = .inr mw2 ∧ MRel δ 0 0 (fs st).2.inStep .none ms2 mw2 ∧
         ms2.c = ms.c ∧ ms2.x = ms.x ∧ mw2.c = mw.c ∧ mw2.x = mw.x ∧ (leaveSeq mw2).r = (leaveSeq mw).r
-    | .inl rs => (∃ rw, runSeqArms env inpW ch arms mw = .inl rw ∧ LockOut env.tbl fs inpW δ K eoi rs rw) ∨
-        BreakOut env.tbl fs env.ops inpS inpW δ 0 ms.x mw0 rs := by
+    | .inl rs => (∃ rw, runSeqArms env inpW ch arms mw = .inl rw ∧ LockOut env.tbl fs inpW δ K Loc eoi rs rw) ∨
+        ((eoi = true → ¬ Closed inpS inpW δ) ∧ BreakOut env.tbl fs env.ops Loc inpS inpW δ 0 ms.x mw0 rs) := by
   intro arms
   induction arms with
   | nil =>
@@ -104,8 +116,8 @@ theorem runSeqArms_lock (F : Frame inpS inpW δ) (hops : OpsSim env.ops inpS inp
           | .inr ms2 => ∃ mw2, runSeqArms env inpW ch rest (leaveSeq (enterSeq mw)) = .inr mw2 ∧
               MRel δ 0 0 (fs st).2.inStep .none ms2 mw2 ∧
               ms2.c = ms.c ∧ ms2.x = ms.x ∧ mw2.c = mw.c ∧ mw2.x = mw.x ∧ (leaveSeq mw2).r = (leaveSeq mw).r
-          | .inl rs => (∃ rw, runSeqArms env inpW ch rest (leaveSeq (enterSeq mw)) = .inl rw ∧ LockOut env.tbl fs inpW δ K eoi rs rw) ∨
-              BreakOut env.tbl fs env.ops inpS inpW δ 0 ms.x mw0 rs := by
+          | .inl rs => (∃ rw, runSeqArms env inpW ch rest (leaveSeq (enterSeq mw)) = .inl rw ∧ LockOut env.tbl fs inpW δ K Loc eoi rs rw) ∨
+              ((eoi = true → ¬ Closed inpS inpW δ) ∧ BreakOut env.tbl fs env.ops Loc inpS inpW δ 0 ms.x mw0 rs) := by
         intro _
         have hcs' : (leaveSeq (enterSeq ms)).c = ms.c := hlcs.trans hcs
         have hxs' : (leaveSeq (enterSeq ms)).x = ms.x := hlxs.trans hxs
@@ -148,12 +160,12 @@ theorem runSeqArms_lock (F : Frame inpS inpW δ) (hops : OpsSim env.ops inpS inp
             exact ⟨arm, hsub arm List.mem_cons_self, hseq⟩
           -- the split run needs more input
           have hbreak : ms.c.isLast = false →
-              BreakOut env.tbl fs env.ops inpS inpW δ 0 ms.x mw0 (breakOnEndOfInput inpS (enterSeq ms)) := by
+              BreakOut env.tbl fs env.ops Loc inpS inpW δ 0 ms.x mw0 (breakOnEndOfInput inpS (enterSeq ms)) := by
             intro hl
             have hbp' := hbp.congr (ms' := enterSeq ms) (mw' := enterSeq mw) hcs hcw hxw (by rw [leaveSeq_enterSeq_r])
             exact breakOut_of_split (by rw [hcs]; exact cx) he (by rw [hcs]; exact hl) (Or.inr ⟨rfl, hinSeq⟩)
               (fun h => absurd h (Nat.lt_irrefl 0)) npw0 hbp'.np hbp'.skip hbp'.c0 hbp'.x0 hbp'.r0 hbp'.q0 ms.x
-              (by rw [hxs]) (by rw [hxs]) (Or.inl ⟨rfl, by rw [hxs]⟩)
+              (by rw [hxs]) (by rw [hxs]) (Or.inl ⟨rfl, by rw [hxs], fun h => absurd h (Nat.lt_irrefl 0)⟩)
           rcases hfirst with ⟨hsame, hbound⟩ | ⟨hneed, hncl, hnl⟩
           · rw [hsame]
             cases hf : firstOf inpS ch e0 es ic (enterSeq ms).c.isLast (enterSeq ms).c.nextPos with
@@ -167,7 +179,8 @@ theorem runSeqArms_lock (F : Frame inpS inpW δ) (hops : OpsSim env.ops inpS inp
                 exact ⟨_, rfl, lock_of_break_both F he2 (by rw [hcs]; exact cx) he rfl
                   (fun _ => ⟨by rw [Ab.inStep_boundary cx.ok.p2]; rw [Ab.le_iff]; simp, fun g => cx.ok.sn2 g⟩)
                   (Or.inr ⟨rfl, hinSeq⟩)
-                  (fun h => absurd h (Nat.lt_irrefl 0)) (by rw [hxs, hxw]; exact hK)⟩
+                  (fun h => absurd h (Nat.lt_irrefl 0)) (by rw [hxs, hxw]; exact hK) rfl
+                  (fun h => absurd h (Nat.lt_irrefl 0))⟩
               · right
                 have hl : ms.c.isLast = false := by
                   cases hh : ms.c.isLast with
@@ -176,7 +189,7 @@ theorem runSeqArms_lock (F : Frame inpS inpW δ) (hops : OpsSim env.ops inpS inp
                     cases he1 : eoi with
                     | false => rw [heoi he1] at hh; cases hh
                     | true => exact absurd ⟨he1, hil hh⟩ hcl
-                exact hbreak hl
+                exact ⟨fun he1 hc => hcl ⟨he1, hc⟩, hbreak hl⟩
             | matched =>
               simp only
               left
@@ -195,7 +208,8 @@ theorem runSeqArms_lock (F : Frame inpS inpW δ) (hops : OpsSim env.ops inpS inp
                 rw [hcadv]
                 exact ⟨cx.look, cx.ok, cx.wf, by show (enterSeq ms).c.state = st; rw [hcs]; exact cx.st_eq,
                   by show _ ∨ (enterSeq ms).c.entered = true; rw [hcs]; exact cx.ent⟩
-              have hbody := runBody_sim F hops fs st true arm.body hok hadv (by rw [hxadv, hxadvw]; exact hK) (Or.inl rfl)
+              have hbody := runBody_sim F hops fs st true arm.body hok hadv (by rw [hxadv, hxadvw]; exact hK)
+                (fun hh => absurd hh (Nat.lt_irrefl 0)) (Or.inl rfl)
                 (by
                   intro s _ cl _ _
                   left
@@ -206,7 +220,7 @@ theorem runSeqArms_lock (F : Frame inpS inpW δ) (hops : OpsSim env.ops inpS inp
             simp only
             right
             have hl : ms.c.isLast = false := by rw [← hcs]; exact hnl
-            exact hbreak hl
+            exact ⟨fun _ => hncl, hbreak hl⟩
       | byte b => rw [hpat] at hseq; cases hseq
       | alpha => rw [hpat] at hseq; cases hseq
       | whitespace => rw [hpat] at hseq; cases hseq
@@ -226,7 +240,7 @@ theorem runSeqArms_end {fs : FlagMap} {st : StateId} {sd : StateDef} :
     match runSeqArms env inpS none arms ms with
     | .inr ms2 => ∃ mw2, MRel δ d 0 (fs st).2.inStep .none ms2 mw2 ∧
         ms2.c = ms.c ∧ ms2.x = ms.x ∧ mw2.c = mw.c ∧ mw2.x = mw.x ∧ (leaveSeq mw2).r = (leaveSeq mw).r
-    | .inl rs => BreakOut env.tbl fs env.ops inpS inpW δ d ms.x mw0 rs := by
+    | .inl rs => BreakOut env.tbl fs env.ops Loc inpS inpW δ d ms.x mw0 rs := by
   intro arms
   induction arms with
   | nil =>
@@ -286,7 +300,9 @@ theorem runSeqArms_end {fs : FlagMap} {st : StateId} {sd : StateDef} :
           have hbp' := hbp.congr (ms' := enterSeq ms) (mw' := enterSeq mw) hcs hcw hxw (by rw [leaveSeq_enterSeq_r])
           exact breakOut_of_split (by rw [hcs]; exact cx) he (by rw [hcs]; exact hl) (Or.inr ⟨rfl, hinSeq⟩)
             hdebt npw0 hbp'.np hbp'.skip hbp'.c0 hbp'.x0 hbp'.r0 hbp'.q0 ms.x
-            (by rw [hxs]) (by rw [hxs]) (Or.inl ⟨rfl, by rw [hxs]⟩)
+            (by rw [hxs]) (by rw [hxs]) (Or.inl ⟨rfl, by rw [hxs], fun hd => by
+              have := (cx.ok.debt (hdebt hd)).2.2.2.1
+              rw [hinSeq] at this; cases this⟩)
       | byte b => rw [hpat] at hseq; cases hseq
       | alpha => rw [hpat] at hseq; cases hseq
       | whitespace => rw [hpat] at hseq; cases hseq
